@@ -1000,9 +1000,19 @@ func genSrvGoAway(p *prng, thorough bool, w *bufio.Writer) {
 		}
 		// some of the running requests are cancelled by the peer first: their handlers go on running, holding their
 		// slots, and come back after the GOAWAY
-		for _, sid := range parked {
-			if p.chance(1, 4) {
-				g.rst(sid, 8)
+		if c%5 == 2 {
+			// every fifth connection for certain (the rest by chance): one running request, cancelled before the GOAWAY
+			if len(parked) == 0 {
+				sid := g.sid()
+				g.simpleReq(sid, "GET", nil)
+				parked = append(parked, sid)
+			}
+			g.rst(parked[0], 8)
+		} else {
+			for _, sid := range parked {
+				if p.chance(1, 4) {
+					g.rst(sid, 8)
+				}
 			}
 		}
 		kind := p.intn(22)
